@@ -51,7 +51,7 @@ inductive Tag where
   | tooSoon | tooLong | windowSmall | hostValidAddr | hostMissedAddr | voidAddress | voidValue
   | hostValidSmall | hostValidNeMissed | excessiveCollateral | windowEndShrinks
   | voidNeBurn | validBelowBase
-  | hostMissedSmall | afterHardfork
+  | hostMissedSmall | afterHardfork | renterSig | fundCost
 deriving DecidableEq, Repr
 
 /-- panic sites, grouped by root cause (`Site.label`) -/
@@ -79,6 +79,8 @@ inductive Site where
   | formCollateralSub | conValidHost | conMissedHost | conVoid
   | baseStorageMul1 | baseStorageMul2 | baseRevenueAdd | baseCollateralMul1 | baseCollateralMul2
   | usageStorageSub | rpcExistingValidRenter | usageTotalAdd
+  -- signing sites of rhp/v3/payments.go
+  | payCurRenter | payRevRenter
 deriving DecidableEq, Repr
 
 /-- root cause of a panic site; used in monitor names / known-finding signatures -/
@@ -90,7 +92,7 @@ def Site.label : Site → String
   | .revCurValidRenter | .revCurMissedRenter | .revRevValidRenter
   | .progCurValidRenter | .progRevValidRenter | .progCurMissedRenter | .progRevMissedRenter
   | .payRevValidRenter | .payCurValidRenter | .payRevMissedRenter | .payCurMissedRenter
-  | .clrCurValidRenter | .clrFinMissedRenter | .rpcExistingValidRenter => "missing_renter_output"
+  | .clrCurValidRenter | .clrFinMissedRenter | .rpcExistingValidRenter | .payCurRenter | .payRevRenter => "missing_renter_output"
   | .revCurMissedHost | .revRevValidHost | .revCurValidHost | .revRevMissedHost
   | .progCurMissedHost | .progRevMissedHost | .progCurValidHost | .progRevValidHost
   | .payRevValidHost | .payCurValidHost | .payRevMissedHost | .payCurMissedHost
@@ -489,17 +491,25 @@ structure Recorded where
   clearingRPC    : Nat   -- clearing usage .RPCRevenue (renewals)
 deriving DecidableEq, Repr
 
+/-- whether the renter's signatures verify: over the clearing / final revision of the old contract and
+over the initial revision of the new contract -/
+structure Sigs where
+  clearing : Bool
+  contract : Bool
+deriving DecidableEq, Repr
+
 /-- rhp/v2/rpc.go `rpcFormContract` from the hard-fork guard to `AddContract` -/
-def rpcForm2 (requireHeight : Nat) (fc : Rev) (expUH height : Nat) (st : Settings) : Res Recorded := do
+def rpcForm2 (requireHeight : Nat) (fc : Rev) (expUH height : Nat) (st : Settings) (sg : Sigs) : Res Recorded := do
   check .afterHardfork (decide (height ≥ requireHeight))     -- rpcLoop: RHP2 is disabled after the require height
   check .afterHardfork (decide (fc.wStart ≥ requireHeight))
   let hostCollateral ← validateFormation fc expUH height st
+  check .renterSig (!sg.contract)                            -- validateRenterRevisionSignature
   pure { locked := hostCollateral, rpcRevenue := st.contractPrice, storageRevenue := 0, risked := 0, clearingRPC := 0 }
 
 /-- rhp/v2/rpc.go `rpcRenewAndClearContract` from the hard-fork guard to `RenewContract`
-(signature checks and transaction funding are outside the model) -/
+(transaction funding is outside the model) -/
 def rpcRenew2 (fx : Bool) (requireHeight : Nat) (existing renewal : Rev) (finalVals : List Nat)
-    (expUH height : Nat) (st : Settings) : Res Recorded := do
+    (expUH height : Nat) (st : Settings) (sg : Sigs) : Res Recorded := do
   check .afterHardfork (decide (height ≥ requireHeight))     -- rpcLoop
   check .locked (decide (existing.revNo = maxRev))             -- session.ContractRevisable
   check .afterHardfork (decide (renewal.wStart ≥ requireHeight))
@@ -510,6 +520,8 @@ def rpcRenew2 (fx : Bool) (requireHeight : Nat) (existing renewal : Rev) (finalV
   let (baseRevenue, baseCollateral) ← renewBase fx st.contractPrice st.storagePrice st.collateral existing renewal
   let (baseRevenue', risked, locked) ← validateRenewal2 fx existing renewal expUH baseRevenue baseCollateral height st
   let storage ← csub .usageStorageSub baseRevenue' st.contractPrice
+  check .renterSig (!sg.clearing)     -- clearing revision signature, verified with the existing contract's renter key
+  check .renterSig (!sg.contract)     -- renewal revision signature
   -- `return clearingUsage.Add(renewalUsage), …` after RenewContract: RPCRevenue fields are added with the panicking Add
   let _ ← cadd .usageTotalAdd finalPayment st.contractPrice
   pure { locked := locked, rpcRevenue := st.contractPrice, storageRevenue := storage, risked := risked,
@@ -518,11 +530,13 @@ def rpcRenew2 (fx : Bool) (requireHeight : Nat) (existing renewal : Rev) (finalV
 /-- rhp/v3/rpc.go `handleRPCRenew` from the hard-fork guard to `RenewContract` (the height check of
 `Serve` is outside: the harness hands the stream to `handleHostStream` directly) -/
 def rpcRenew3 (fx : Bool) (requireHeight : Nat) (existing clearing renewal : Rev)
-    (expUH height : Nat) (st : Settings) : Res Recorded := do
+    (expUH height : Nat) (st : Settings) (sg : Sigs) : Res Recorded := do
   check .afterHardfork (decide (renewal.wStart ≥ requireHeight))
   let finalPayment ← validateClearing fx existing clearing 0
+  check .renterSig (!sg.clearing)     -- final revision signature, verified with the existing contract's renter key
   let (baseRevenue, baseCollateral) ← renewBase fx st.renewCost st.storagePrice st.collateral existing renewal
   let (risked, locked) ← validateRenewal3 fx existing renewal expUH baseRevenue baseCollateral height st
+  check .renterSig (!sg.contract)     -- validateRenterRevisionSignature
   -- `return finalRevisionUsage.Add(renewalUsage), …` after RenewContract
   let _ ← cadd .usageTotalAdd finalPayment st.contractPrice
   pure { locked := locked, rpcRevenue := st.contractPrice, storageRevenue := baseRevenue, risked := risked,
@@ -633,5 +647,160 @@ def renew3Recorded (existing clearing renewal : Rev) (st : Settings) : Option Re
     some { locked := vh - (st.contractPrice + base), rpcRevenue := st.contractPrice,
            storageRevenue := base, risked := (vh - mh) - base, clearingRPC := fh - evh }
   | _, _, _, _ => none
+
+/-! ### signing sites (C07)
+
+Every call of `SignHash` in rhp/v2 and rhp/v3 that produces a host signature over a contract
+revision, with the validator that must guard it and the clauses that must hold between the
+revision the host holds and the revision it counter-signs.  The harness reads the source tree
+(`signsites` line) and the driver checks that this table names exactly the functions that sign. -/
+
+inductive Guard where
+  | formation | renewal2 | renewal3 | clearing | revision | program | payment
+  | none     -- the signature is not over a contract revision
+deriving DecidableEq, Repr
+
+inductive SignSite where
+  | rhp2Form | rhp2RenewClearing | rhp2RenewContract | rhp2SectorRoots | rhp2Write | rhp2Read
+  | rhp3Pay | rhp3Fund | rhp3Finalize | rhp3RenewClearing | rhp3RenewContract | rhp3FundReceipt
+deriving DecidableEq, Repr
+
+structure SiteInfo where
+  site    : SignSite
+  name    : String   -- `<site>` in the monitor names `accept_safe/<site>/<clause>`
+  file    : String
+  fn      : String   -- enclosing function of the `SignHash` call
+  line    : Nat      -- line of the call at the time of writing (documentation; the tie is file + function)
+  guard   : Guard
+  builtBy : String   -- where the signed revision comes from
+  clauses : String   -- clause family that must hold for (current, signed)
+deriving Repr
+
+def signingSites : List SiteInfo :=
+  [ { site := .rhp2Form, name := "rpcFormContract", file := "rhp/v2/rpc.go", fn := "rpcFormContract", line := 188,
+      guard := .formation, builtBy := "InitialRevision(renter's formation transaction)", clauses := "contractClauses (C12)" },
+    { site := .rhp2RenewClearing, name := "rpcRenewAndClearContract", file := "rhp/v2/rpc.go", fn := "rpcRenewAndClearContract", line := 413,
+      guard := .clearing, builtBy := "ClearingRevision(current, renter values)", clauses := "clearingClauses finalPayment" },
+    { site := .rhp2RenewContract, name := "rpcRenewAndClearContract", file := "rhp/v2/rpc.go", fn := "rpcRenewAndClearContract", line := 418,
+      guard := .renewal2, builtBy := "InitialRevision(renter's renewal transaction)", clauses := "contractClauses (C12)" },
+    { site := .rhp2SectorRoots, name := "rhp2.rpcSectorRoots", file := "rhp/v2/rpc.go", fn := "rpcSectorRoots", line := 502,
+      guard := .revision, builtBy := "Revise(current, renter values)", clauses := "revisionClauses cost 0" },
+    { site := .rhp2Write, name := "rhp2.rpcWrite", file := "rhp/v2/rpc.go", fn := "rpcWrite", line := 718,
+      guard := .revision, builtBy := "Revise(current, renter values) + host-computed file size and root",
+      clauses := "revisionClauses cost collateral" },
+    { site := .rhp2Read, name := "rhp2.rpcRead", file := "rhp/v2/rpc.go", fn := "rpcRead", line := 817,
+      guard := .revision, builtBy := "Revise(current, renter values)", clauses := "revisionClauses cost 0" },
+    { site := .rhp3Finalize, name := "rhp3.finalize", file := "rhp/v3/execute.go", fn := "commit", line := 715,
+      guard := .program, builtBy := "Revise(current, renter values) + host-computed file size and root",
+      clauses := "revisionClauses 0 (storage + collateral)" },
+    { site := .rhp3Pay, name := "rhp3.processContractPayment", file := "rhp/v3/payments.go", fn := "processContractPayment", line := 67,
+      guard := .payment, builtBy := "Revise(current, renter values)", clauses := "revisionClauses paid 0, credited = paid" },
+    { site := .rhp3Fund, name := "rhp3.processFundAccountPayment", file := "rhp/v3/payments.go", fn := "processFundAccountPayment", line := 221,
+      guard := .payment, builtBy := "Revise(current, renter values)", clauses := "revisionClauses paid 0, credited = paid - fund cost" },
+    { site := .rhp3FundReceipt, name := "rhp3.fundReceipt", file := "rhp/v3/rpc.go", fn := "handleRPCFundAccount", line := 131,
+      guard := .none, builtBy := "FundAccountReceipt (no contract revision)", clauses := "-" },
+    { site := .rhp3RenewClearing, name := "handleRPCRenew", file := "rhp/v3/rpc.go", fn := "handleRPCRenew", line := 330,
+      guard := .clearing, builtBy := "renter's transaction", clauses := "clearingClauses 0" },
+    { site := .rhp3RenewContract, name := "handleRPCRenew", file := "rhp/v3/rpc.go", fn := "handleRPCRenew", line := 390,
+      guard := .renewal3, builtBy := "InitialRevision(renter's renewal transaction)", clauses := "contractClauses (C12)" } ]
+
+/-- number of signing calls the table attributes to a function of a file -/
+def siteCount (file fn : String) : Nat :=
+  (signingSites.filter fun i => i.file == file && i.fn == fn).length
+
+/-- what the renter sends to a site whose revision is built by `Revise`, the price and allowed burn
+of the RPC (computed with the cost functions of `core`) and whether the renter's signature is over
+the revision the host builds -/
+structure SiteIn where
+  cur   : Rev
+  no    : Nat
+  vv    : List Nat
+  mv    : List Nat
+  price : Nat     -- cost of the RPC (rpcSectorRoots/Read/Write), fund account cost (fund account)
+  burn  : Nat     -- collateral of a write, storage + collateral of a program
+  sigOK : Bool
+deriving Repr
+
+/-- rhp/v2/rpc.go rpcSectorRoots / rpcRead / rpcWrite from `ContractRevisable` to the host signature -/
+def rhp2Pay (fx : Bool) (i : SiteIn) : Res Rev := do
+  check .locked (decide (i.cur.revNo = maxRev))          -- session.ContractRevisable
+  let r ← revise i.cur i.no i.vv i.mv
+  let _ ← validateRevision fx i.cur r i.price i.burn
+  check .renterSig (!i.sigOK)
+  pure r
+
+/-- the amount a payment revision moves out of the renter's valid payout:
+`current.ValidRenterPayout().SubWithUnderflow(revision.ValidRenterPayout())` -/
+def paidAmount (cur r : Rev) : Res Nat := do
+  let cvr ← out0 .payCurRenter cur.valid
+  let rvr ← out0 .payRevRenter r.valid
+  check .renterValidUnderflow (decide (cvr.val < rvr.val))
+  pure (cvr.val - rvr.val)
+
+/-- rhp/v3/payments.go processContractPayment; returns the signed revision and the credited amount -/
+def rhp3Pay (fx : Bool) (i : SiteIn) : Res (Rev × Nat) := do
+  let r ← revise i.cur i.no i.vv i.mv
+  let amount ← paidAmount i.cur r
+  validatePayment fx i.cur r amount
+  check .renterSig (!i.sigOK)
+  pure (r, amount)
+
+/-- rhp/v3/payments.go processFundAccountPayment (`i.price` = `pt.FundAccountCost`) -/
+def rhp3Fund (fx : Bool) (i : SiteIn) : Res (Rev × Nat) := do
+  let r ← revise i.cur i.no i.vv i.mv
+  let total ← paidAmount i.cur r
+  check .fundCost (decide (total < i.price))
+  validatePayment fx i.cur r total
+  check .renterSig (!i.sigOK)
+  pure (r, total - i.price)
+
+/-- rhp/v3/execute.go programExecutor.commit (`i.burn` = `pe.cost.Storage + pe.cost.Collateral`) -/
+def rhp3Finalize (fx : Bool) (i : SiteIn) : Res Rev := do
+  let r ← revise i.cur i.no i.vv i.mv
+  let _ ← validateProgram fx i.cur r i.burn 0
+  check .renterSig (!i.sigOK)
+  pure r
+
+/-- the sites whose revision is built by `Revise` from the renter's values -/
+def signRevise (fx : Bool) : SignSite → SiteIn → Res (Rev × Nat)
+  -- rpcSectorRoots and rpcRead pass `types.ZeroCurrency` as the collateral
+  | .rhp2SectorRoots, i | .rhp2Read, i => do let r ← rhp2Pay fx { i with burn := 0 }; pure (r, 0)
+  | .rhp2Write, i => do let r ← rhp2Pay fx i; pure (r, 0)
+  | .rhp3Pay, i => rhp3Pay fx i
+  | .rhp3Fund, i => rhp3Fund fx i
+  | .rhp3Finalize, i => do let r ← rhp3Finalize fx i; pure (r, 0)
+  | _, _ => .reject .curShape
+
+/-- what the renter's valid payout loses between two revisions (0 when an output is missing) -/
+def paid (cur r : Rev) : Nat :=
+  match renterVal cur.valid, renterVal r.valid with
+  | some a, some b => a - b
+  | _, _ => 0
+
+/-- the signed revision is the current one with only the revision number and output values replaced -/
+def onlyValuesChanged (cur r : Rev) (no : Nat) (vv mv : List Nat) : List (String × Bool) :=
+  [ ("signed_revno_as_requested", decide (r.revNo = no)),
+    ("signed_values_as_requested", decide (vals r.valid = vv ∧ vals r.missed = mv)),
+    ("signed_addresses_of_current", decide (addrs r.valid = addrs cur.valid ∧ addrs r.missed = addrs cur.missed)) ]
+
+/-- clauses that must hold between the current revision and the revision counter-signed at a site;
+`credited` is the amount credited to the account (RHP3 payments) -/
+def siteClauses (s : SignSite) (i : SiteIn) (r : Rev) (credited : Nat) : List (String × Bool) :=
+  match s with
+  | .rhp2SectorRoots | .rhp2Read =>
+    revisionClauses i.cur r i.price 0 ++ onlyValuesChanged i.cur r i.no i.vv i.mv ++
+      [("file_unchanged", decide (r.filesize = i.cur.filesize ∧ r.root = i.cur.root))]
+  | .rhp2Write => revisionClauses i.cur r i.price i.burn ++ onlyValuesChanged i.cur r i.no i.vv i.mv
+  | .rhp3Finalize => revisionClauses i.cur r 0 i.burn ++ onlyValuesChanged i.cur r i.no i.vv i.mv
+  | .rhp3Pay =>
+    revisionClauses i.cur r (paid i.cur r) 0 ++ onlyValuesChanged i.cur r i.no i.vv i.mv ++
+      [("file_unchanged", decide (r.filesize = i.cur.filesize ∧ r.root = i.cur.root)),
+       ("credited_is_paid", decide (credited = paid i.cur r))]
+  | .rhp3Fund =>
+    revisionClauses i.cur r (paid i.cur r) 0 ++ onlyValuesChanged i.cur r i.no i.vv i.mv ++
+      [("file_unchanged", decide (r.filesize = i.cur.filesize ∧ r.root = i.cur.root)),
+       ("covers_fund_cost", decide (i.price ≤ paid i.cur r)),
+       ("credited_is_paid", decide (credited + i.price = paid i.cur r))]
+  | _ => []
 
 end Hostd.Revision
